@@ -8,9 +8,9 @@
      ols_x P f                             = null when n Sbb = Sb^2 (DESIGN 5.6), else f(alpha, beta) of the
                                              least-squares line a ~ alpha + beta b
    Statements only.                                                                                 *)
-From Coq Require Import Reals List Lra.
-From Tevec Require Import Base.Prelude Base.Num Base.XR Spec.Stats Spec.Ols Model.Driver Model.Features
-     Model.Binary Model.Reg Proofs.Features Proofs.Ols Proofs.Binary Proofs.Trend Proofs.Resid.
+From Coq Require Import Reals List Lra Lia Floats.
+From Tevec Require Import Base.Prelude Base.Num Base.XR Base.F64 Spec.Stats Spec.Ols Model.Driver Model.Features
+     Model.Binary Model.Reg Proofs.Features Proofs.Ols Proofs.Binary Proofs.Trend Proofs.Resid Proofs.Audit04.
 Import ListNotations.
 
 (* (0) the accumulator never drifts: at emit time of every step it holds exactly the count and the cross
@@ -366,6 +366,319 @@ Proof. split; [unfold line; cbn; repeat f_equal; lra|cbn; lia]. Qed.
 Example C04_example_singular : detB [(1, 2); (5, 2); (7, 2)]%R = 0%R.
 Proof. unfold detB, SBB, SB, sumP, nP. cbn. lra. Qed.
 
+(* ================================================================================================ *)
+(* AUDIT (notes/C04.md, "Audit matrix").  Proofs: Proofs/Audit04.v.                                   *)
+(* ================================================================================================ *)
+
+(* ---- (8) EVERY input of the two-series entry points, for every feature and every carrier: which check of the
+        code fires first (guard_kind: both are assertions), else a fully written output as long as the common
+        prefix.  check2 true = index body (caller buffer, Vec / ndarray fast path): `assert!(other.len() >= len)`
+        then `assert!(window > 0 || len == 0)`; check2 false = iterator body: the window assertion on the first
+        series only. ---- *)
+Theorem C04_two_series_first_failing_check :
+  forall (T1 T2 St O : Type) (F : feat (T1 * T2) St O) (body : bool) (w : nat) (xs : list T1) (ys : list T2),
+    match check2 body w xs ys with
+    | Some g => ts_run2 F body w xs ys = Panicked (guard_kind g)
+    | None => exists l, ts_run2 F body w xs ys = Done l /\ length l = common xs ys
+    end.
+Proof. exact (@ts_run2_by_check). Qed.
+
+Theorem C04_accepted_inputs :
+  forall (T1 T2 : Type) (body : bool) (w : nat) (xs : list T1) (ys : list T2),
+    check2 body w xs ys = None <-> (body = false \/ length xs <= length ys) /\ (1 <= w \/ xs = []).
+Proof. exact (@check2_none_iff). Qed.
+
+(* the two rejected classes spelled out: window 0 (both bodies; the FIRST series decides) and a shorter second
+   series in the index body *)
+Theorem C04_window_zero :
+  forall (T1 T2 St O : Type) (F : feat (T1 * T2) St O) (body : bool) (xs : list T1) (ys : list T2),
+    ts_run2 F body 0 xs ys = match xs with [] => Done [] | _ :: _ => Panicked AssertFail end.
+Proof. exact (@ts_run2_window0). Qed.
+
+Theorem C04_shorter_second_series_index_body :
+  forall (T1 T2 St O : Type) (F : feat (T1 * T2) St O) (w : nat) (xs : list T1) (ys : list T2),
+    length ys < length xs -> ts_run2 F true w xs ys = Panicked AssertFail.
+Proof. exact (@ts_run2_shorter_second). Qed.
+
+(* the residual family (rolling2_apply_idx) has the same checks *)
+Theorem C04_resid_first_failing_check :
+  forall (A : Type) (NA : Num A) (T1 : Type) (D1 : IsNone T1 A) (T2 : Type) (D2 : IsNone T2 A)
+         (k : rstat) (body : bool) (w : nat) (mp : option nat) (xs : list T1) (ys : list T2),
+    (match check2 body w xs ys with
+     | Some g => ts_vregx_resid k body w mp xs ys = Panicked (guard_kind g)
+     | None => exists l, ts_vregx_resid k body w mp xs ys = Done l /\ length l = common xs ys
+     end) /\
+    ts_vregx_resid k body 0 mp xs ys = match xs with [] => Done [] | _ :: _ => Panicked AssertFail end.
+Proof. intros. split; [apply resid_by_check|apply resid_window0]. Qed.
+
+(* the one-series (time-trend) family: window 0 *)
+Theorem C04_trend_window_zero :
+  forall (T St O : Type) (F : feat T St O) (body : bool) (xs : list T),
+    ts_run F body 0 xs = match xs with [] => Done [] | _ :: _ => Panicked AssertFail end.
+Proof. exact (@ts_run_window0). Qed.
+
+(* ---- (9) the value theorems WITHOUT `length xs = length ys`: on every accepted input with a positive window
+        (iterator body: any two lengths; index body: second series not shorter) the output has the length of the
+        common prefix and position i is the statistic of the pairwise-complete observations of the window ---- *)
+Theorem C04_cross_sum_family_any_lengths :
+  forall (O : Type) (emit : @csum XR -> O) (G : list (R * R) -> O) (body : bool) (w : nat) (xs ys : list XR),
+    1 <= w -> (body = false \/ length xs <= length ys) ->
+    (forall s W, csum_abs s W -> emit s = G (vpairs W)) ->
+    exists out, ts_run2 (csum_feat emit) body w xs ys = Done out /\ length out = common xs ys /\
+      forall i, i < common xs ys -> nth_error out i = Some (G (pairs (win w i xs) (win w i ys))).
+Proof. intros O emit G body w xs ys. apply csum_entry_any_lengths. Qed.
+
+Theorem C04_ts_vcov_any_lengths :
+  forall (body : bool) (w : nat) (mp : option nat) (xs ys : list XR),
+    1 <= w -> (body = false \/ length xs <= length ys) ->
+    exists out, ts_run2 (ts_vcov_f w mp) body w xs ys = Done out /\ length out = common xs ys /\
+      forall i, i < common xs ys ->
+        nth_error out i =
+        Some (let P := pairs (win w i xs) (win w i ys) in
+              if mp_eff mp w 2 <=? length P then Some (cov_sample P) else None).
+Proof.
+  intros body w mp xs ys Hw Hb.
+  apply (csum_entry_any_lengths (emit_cov (mp_eff mp w 2))
+           (fun P => if mp_eff mp w 2 <=? length P then Some (cov_sample P) else None)); [exact Hw|exact Hb|].
+  intros s W HA. apply emit_cov_spec; [exact HA|apply mp_eff_ge].
+Qed.
+
+Theorem C04_ts_vcorr_any_lengths :
+  forall (body : bool) (w : nat) (mp : option nat) (xs ys : list XR),
+    1 <= w -> (body = false \/ length xs <= length ys) ->
+    exists out, ts_run2 (ts_vcorr_f w mp) body w xs ys = Done out /\ length out = common xs ys /\
+      forall i, i < common xs ys ->
+        nth_error out i =
+        Some (let P := pairs (win w i xs) (win w i ys) in
+              if mp_eff mp w 0 <=? length P then
+                (if Rlt_dec EPS (popvarR (map fst P)) then
+                   (if Rlt_dec EPS (popvarR (map snd P)) then Some (corrP P) else None)
+                 else None)
+              else None).
+Proof.
+  intros body w mp xs ys Hw Hb.
+  apply (csum_entry_any_lengths (emit_corr (mp_eff mp w 0))
+           (fun P => if mp_eff mp w 0 <=? length P then
+                       (if Rlt_dec EPS (popvarR (map fst P)) then
+                          (if Rlt_dec EPS (popvarR (map snd P)) then Some (corrP P) else None)
+                        else None)
+                     else None)); [exact Hw|exact Hb|].
+  intros s W HA. apply emit_corr_spec. exact HA.
+Qed.
+
+Theorem C04_ts_vregx_any_lengths :
+  forall (body : bool) (w : nat) (mp : option nat) (xs ys : list XR),
+    1 <= w -> (body = false \/ length xs <= length ys) ->
+    (exists out, ts_run2 (ts_vregx_alpha_f w mp) body w xs ys = Done out /\ length out = common xs ys /\
+       forall i, i < common xs ys ->
+         nth_error out i = Some (let P := pairs (win w i xs) (win w i ys) in
+                                 if mp_eff mp w 0 <=? length P then ols_x P (fun al _ => al) else None)) /\
+    (exists out, ts_run2 (ts_vregx_beta_f w mp) body w xs ys = Done out /\ length out = common xs ys /\
+       forall i, i < common xs ys ->
+         nth_error out i = Some (let P := pairs (win w i xs) (win w i ys) in
+                                 if mp_eff mp w 0 <=? length P then ols_x P (fun _ be => be) else None)) /\
+    (exists out, ts_run2 (ts_vregx_all_f w mp) body w xs ys = Done out /\ length out = common xs ys /\
+       forall i, i < common xs ys ->
+         nth_error out i =
+         Some (let P := pairs (win w i xs) (win w i ys) in
+               if mp_eff mp w 0 <=? length P then
+                 (if Req_EM_T (detB P) 0 then (None, None, None)
+                  else (Some (ols_alpha P), Some (ols_beta P), Some (sse (ols_alpha P) (ols_beta P) P)))
+               else (None, None, None))).
+Proof.
+  intros body w mp xs ys Hw Hb. split; [|split].
+  - apply (csum_entry_any_lengths (emit_regx_alpha (mp_eff mp w 0))
+             (fun P => if mp_eff mp w 0 <=? length P then ols_x P (fun al _ => al) else None)); [exact Hw|exact Hb|].
+    intros s W HA. apply emit_regx_alpha_spec. exact HA.
+  - apply (csum_entry_any_lengths (emit_regx_beta (mp_eff mp w 0))
+             (fun P => if mp_eff mp w 0 <=? length P then ols_x P (fun _ be => be) else None)); [exact Hw|exact Hb|].
+    intros s W HA. apply emit_regx_beta_spec. exact HA.
+  - apply (csum_entry_any_lengths (emit_regx_all (mp_eff mp w 0))
+             (fun P => if mp_eff mp w 0 <=? length P then
+                         (if Req_EM_T (detB P) 0 then (None, None, None)
+                          else (Some (ols_alpha P), Some (ols_beta P),
+                                Some (sse (ols_alpha P) (ols_beta P) P)))
+                       else (None, None, None))); [exact Hw|exact Hb|].
+    intros s W HA. apply emit_regx_all_spec. exact HA.
+Qed.
+
+Theorem C04_ts_vregx_resid_any_lengths :
+  forall (k : rstat) (body : bool) (w : nat) (mp : option nat) (xs ys : list XR),
+    1 <= w -> (body = false \/ length xs <= length ys) ->
+    exists out, ts_vregx_resid k body w mp xs ys = Done out /\ length out = common xs ys /\
+      forall i, i < common xs ys ->
+        nth_error out i =
+        Some (let P := pairs (win w i xs) (win w i ys) in
+              if mp_eff mp w 0 <=? length P then
+                (if Req_EM_T (detB P) 0 then None
+                 else rstat_spec k (resids (ols_alpha P) (ols_beta P) P))
+              else None).
+Proof. exact resid_entry_any_lengths. Qed.
+
+(* ---- (10) the window and the pairwise-complete selection, positionally ---- *)
+(* win w i xs is positions max(0, i+1-w) ..= i (w > len included: the window is then the whole prefix) *)
+Theorem C04_window_positions :
+  forall (X : Type) (w i : nat) (xs : list X), i < length xs ->
+    length (win w i xs) = S i - (S i - w) /\
+    forall j, j < S i - (S i - w) -> nth_error (win w i xs) j = nth_error xs (S i - w + j).
+Proof. exact (@win_positions). Qed.
+
+(* ... and a window at least as long as the prefix (every position when w > len) is the whole prefix 0..=i: the
+   statistics are then the expanding ones *)
+Theorem C04_window_covers_prefix :
+  forall (X : Type) (w i : nat) (xs : list X), S i <= w -> win w i xs = firstn (S i) xs.
+Proof. exact (@win_covers_prefix). Qed.
+
+(* (a, b) is an observation iff some position of the window holds a in the first and b in the second series, both
+   non-null; the count is the number of such positions, and a null in EITHER series drops the position from both
+   coordinates *)
+Theorem C04_pairs_positional :
+  forall (W1 W2 : list XR) (a b : R),
+    In (a, b) (pairs W1 W2) <->
+    exists j, nth_error W1 j = Some (Some a) /\ nth_error W2 j = Some (Some b).
+Proof. exact pairs_positional. Qed.
+
+Theorem C04_pairs_are_the_complete_positions :
+  forall (W1 W2 : list XR),
+    let P := pairs W1 W2 in
+    length P = length (filter both_some (combine W1 W2)) /\
+    map (fun p => Some (fst p)) P = map fst (filter both_some (combine W1 W2)) /\
+    map (fun p => Some (snd p)) P = map snd (filter both_some (combine W1 W2)).
+Proof.
+  intros W1 W2 P. split; [apply vpairs_length|]. apply vpairs_map_fst.
+Qed.
+
+(* ---- (11) EVERY numeric carrier (binary64 included) and every pair of null dictionaries: the accumulator's count
+         is the number of pairwise-complete positions of the window, so all five statistics are null wherever that
+         count is below the effective min_periods.  No law of the arithmetic is used. ---- *)
+Theorem C04_count_tracks_window_any_carrier :
+  forall (A : Type) (NA : Num A) (T1 : Type) (D1 : IsNone T1 A) (T2 : Type) (D2 : IsNone T2 A)
+         (O : Type) (emit : @csum A -> O) (body : bool) (w : nat) (xs : list T1) (ys : list T2),
+    1 <= w -> (body = false \/ length xs <= length ys) ->
+    exists out, ts_run2 (csum_feat emit) body w xs ys = Done out /\ length out = common xs ys /\
+      forall i, i < common xs ys ->
+        exists s, nth_error out i = Some (emit s) /\ c_n s = npairs (combine (win w i xs) (win w i ys)).
+Proof. intros A NA T1 D1 T2 D2 O emit body w xs ys. apply count_tracks_window. Qed.
+
+Theorem C04_below_min_periods_null_any_carrier :
+  forall (A : Type) (NA : Num A) (T1 : Type) (D1 : IsNone T1 A) (T2 : Type) (D2 : IsNone T2 A)
+         (body : bool) (w : nat) (mp : option nat) (xs : list T1) (ys : list T2),
+    1 <= w -> (body = false \/ length xs <= length ys) ->
+    let below k i := npairs (combine (win w i xs) (win w i ys)) < mp_eff mp w k in
+    (exists out, ts_run2 (ts_vcov_f w mp) body w xs ys = Done out /\ length out = common xs ys /\
+       forall i, i < common xs ys -> below 2 i -> nth_error out i = Some nnan) /\
+    (exists out, ts_run2 (ts_vcorr_f w mp) body w xs ys = Done out /\ length out = common xs ys /\
+       forall i, i < common xs ys -> below 0 i -> nth_error out i = Some nnan) /\
+    (exists out, ts_run2 (ts_vregx_alpha_f w mp) body w xs ys = Done out /\ length out = common xs ys /\
+       forall i, i < common xs ys -> below 0 i -> nth_error out i = Some nnan) /\
+    (exists out, ts_run2 (ts_vregx_beta_f w mp) body w xs ys = Done out /\ length out = common xs ys /\
+       forall i, i < common xs ys -> below 0 i -> nth_error out i = Some nnan) /\
+    (exists out, ts_run2 (ts_vregx_all_f w mp) body w xs ys = Done out /\ length out = common xs ys /\
+       forall i, i < common xs ys -> below 0 i -> nth_error out i = Some (nnan, nnan, nnan)).
+Proof.
+  intros A NA T1 D1 T2 D2 body w mp xs ys Hw Hb below.
+  split; [|split; [|split; [|split]]].
+  - apply (below_min_periods_null (emit_cov (mp_eff mp w 2)) nnan (mp_eff mp w 2)); [apply emit_cov_below|exact Hw|exact Hb].
+  - apply (below_min_periods_null (emit_corr (mp_eff mp w 0)) nnan (mp_eff mp w 0)); [apply emit_corr_below|exact Hw|exact Hb].
+  - apply (below_min_periods_null (emit_regx_alpha (mp_eff mp w 0)) nnan (mp_eff mp w 0));
+      [apply emit_regx_alpha_below|exact Hw|exact Hb].
+  - apply (below_min_periods_null (emit_regx_beta (mp_eff mp w 0)) nnan (mp_eff mp w 0));
+      [apply emit_regx_beta_below|exact Hw|exact Hb].
+  - apply (below_min_periods_null (emit_regx_all (mp_eff mp w 0)) (nnan, nnan, nnan) (mp_eff mp w 0));
+      [apply emit_regx_all_below|exact Hw|exact Hb].
+Qed.
+
+(* at the proof carrier the generic count is the length of the specification's list of observations *)
+Theorem C04_count_at_XR :
+  forall (W1 W2 : list XR), npairs (D1 := IsNoneXR) (D2 := IsNoneXR) (combine W1 W2) = length (pairs W1 W2).
+Proof. intros W1 W2. apply npairs_XR. Qed.
+
+(* the time-trend family likewise: count of non-null values, null below min_periods, at every carrier *)
+Theorem C04_trend_below_min_periods_null_any_carrier :
+  forall (A : Type) (NA : Num A) (T : Type) (DT : IsNone T A) (emit : nat -> @tr_st A -> A)
+         (body : bool) (w : nat) (mp : option nat) (xs : list T),
+    emit = emit_reg \/ emit = emit_tsf \/ emit = emit_slope \/ emit = emit_intercept \/ emit = emit_resid_mean ->
+    1 <= w ->
+    exists out, ts_run (tr_feat (emit (mp_eff mp w 0))) body w xs = Done out /\ length out = length xs /\
+      forall i, i < length xs ->
+        (exists s, nth_error out i = Some (emit (mp_eff mp w 0) s) /\ t_n s = nvalid (win w i xs)) /\
+        (nvalid (win w i xs) < mp_eff mp w 0 -> nth_error out i = Some nnan).
+Proof.
+  intros A NA T DT emit body w mp xs He Hw.
+  destruct (trend_count_tracks_window (emit (mp_eff mp w 0)) body w xs Hw) as (out & Hrun & Hl & Hout).
+  exists out. split; [exact Hrun|]. split; [exact Hl|]. intros i Hi. split; [exact (Hout i Hi)|].
+  intros Hn. destruct (Hout i Hi) as (s & Hs & Hc). rewrite Hs. f_equal.
+  rewrite <- Hc in Hn. destruct (trend_emits_below (mp_eff mp w 0) s Hn) as (E1 & E2 & E3 & E4 & E5).
+  destruct He as [-> |[-> |[-> |[-> | ->]]]]; assumption.
+Qed.
+
+(* ... and the three residual statistics (rolling2_apply_idx, both bodies) *)
+Theorem C04_resid_below_min_periods_null_any_carrier :
+  forall (A : Type) (NA : Num A) (T1 : Type) (D1 : IsNone T1 A) (T2 : Type) (D2 : IsNone T2 A)
+         (k : rstat) (body : bool) (w : nat) (mp : option nat) (xs : list T1) (ys : list T2),
+    1 <= w -> (body = false \/ length xs <= length ys) ->
+    exists out, ts_vregx_resid k body w mp xs ys = Done out /\ length out = common xs ys /\
+      forall i, i < common xs ys ->
+        npairs (D1 := D1) (D2 := D2) (combine (win w i xs) (win w i ys)) < mp_eff mp w 0 ->
+        nth_error out i = Some nnan.
+Proof. intros A NA T1 D1 T2 D2 k body w mp xs ys. apply resid_below_min_periods_null. Qed.
+
+(* ---- (12) "a perfect linear window has zero residual", end to end on the two-series model: if the pairwise-complete
+         observations of the window at position i lie on a = c + d b with a non-constant regressor, the triple is
+         (c, d, 0), alpha = c, beta = d and the residual mean / std / skew (>= 3 observations) are 0 ---- *)
+Theorem C04_perfect_window_regx :
+  forall (body : bool) (w : nat) (mp : option nat) (xs ys : list XR) (i : nat) (c d : R),
+    1 <= w -> length xs = length ys -> i < length xs ->
+    let P := pairs (win w i xs) (win w i ys) in
+    detB P <> 0%R -> Forall (fun p => fst p = c + d * snd p)%R P -> mp_eff mp w 0 <= length P ->
+    (exists out, ts_run2 (ts_vregx_all_f w mp) body w xs ys = Done out /\
+                 nth_error out i = Some (Some c, Some d, Some 0%R)) /\
+    (exists out, ts_run2 (ts_vregx_alpha_f w mp) body w xs ys = Done out /\ nth_error out i = Some (Some c)) /\
+    (exists out, ts_run2 (ts_vregx_beta_f w mp) body w xs ys = Done out /\ nth_error out i = Some (Some d)) /\
+    (forall k, (k = RSkew -> 3 <= length P) ->
+       exists out, ts_vregx_resid k body w mp xs ys = Done out /\ nth_error out i = Some (Some 0%R)).
+Proof. exact perfect_window_regx. Qed.
+
+(* ---- non-vacuity of the audit theorems ---- *)
+(* unequal lengths: accepted by the iterator body (common prefix), rejected by the index body; window 0 *)
+Example C04_example_unequal_lengths :
+  let xs := [Some 1%R; None; Some 3%R] in let ys := [Some 2%R; Some 5%R] in
+  check2 false 2 xs ys = None /\ check2 true 2 xs ys = Some GShorter /\ check2 true 2 ys xs = None /\
+  check2 false 0 xs ys = Some GWindow /\ common xs ys = 2 /\
+  (exists out, ts_run2 (ts_vcov_f (A := XR) 2 (Some 1)) false 2 xs ys = Done out /\ length out = 2) /\
+  ts_run2 (ts_vcov_f (A := XR) 2 (Some 1)) true 2 xs ys = Panicked AssertFail.
+Proof.
+  cbv zeta. split; [reflexivity|]. split; [reflexivity|]. split; [reflexivity|]. split; [reflexivity|].
+  split; [reflexivity|]. split.
+  - destruct (C04_ts_vcov_any_lengths false 2 (Some 1) [Some 1%R; None; Some 3%R] [Some 2%R; Some 5%R]
+                ltac:(auto) ltac:(left; reflexivity)) as (out & H & L & _).
+    exists out. split; [exact H|exact L].
+  - apply C04_shorter_second_series_index_body. cbn. auto.
+Qed.
+
+(* a window below min_periods at binary64 *)
+Example C04_example_below_min_periods_binary64 :
+  let xs := [1%float; nan; 3%float] in let ys := [Some 2%float; Some 5%float; None] in
+  npairs (combine (win 3 2 xs) (win 3 2 ys)) = 1 /\ mp_eff None 3 2 = 2 /\
+  ts_run2 (ts_vcov_f (A := float) 3 None) true 3 xs ys = Done [nan; nan; nan] /\
+  npairs (combine (win 3 2 xs) (win 3 2 ys)) < mp_eff (Some 2) 3 0 /\
+  ts_vregx_resid RStd false 3 (Some 2) xs ys = Done [nan; nan; nan].
+Proof. vm_compute. repeat split; repeat constructor. Qed.
+
+(* a perfect linear window with a null in each series: the premises of C04_perfect_window_regx are satisfiable *)
+Example C04_example_perfect_window :
+  let xs := [Some 1%R; None; Some 5%R; Some 7%R] in let ys := [Some 0%R; Some 9%R; Some 2%R; Some 3%R] in
+  let P := pairs (win 4 3 xs) (win 4 3 ys) in
+  P = [(1, 0); (5, 2); (7, 3)]%R /\ detB P <> 0%R /\ Forall (fun p => fst p = 1 + 2 * snd p)%R P /\
+  mp_eff None 4 0 <= length P.
+Proof.
+  cbv zeta. split; [reflexivity|].
+  change (pairs (win 4 3 [Some 1%R; None; Some 5%R; Some 7%R]) (win 4 3 [Some 0%R; Some 9%R; Some 2%R; Some 3%R]))
+    with [(1, 0); (5, 2); (7, 3)]%R.
+  split; [unfold detB, SBB, SB, sumP, nP; cbn; lra|]. split; [repeat constructor; cbn; lra|cbn; lia].
+Qed.
+
+
 Print Assumptions C04_cross_sums_track_window.
 Print Assumptions C04_ts_vcov.
 Print Assumptions C04_ts_vcorr.
@@ -386,3 +699,27 @@ Print Assumptions C04_perfect_fit.
 Print Assumptions C04_perfect_line_resid_stats.
 Print Assumptions C04_perfect_line.
 Print Assumptions C04_perfect_line_coefficients.
+Print Assumptions C04_defined_needs_two_observations.
+Print Assumptions C04_ols_resid_mean_zero.
+Print Assumptions C04_trend_singular_iff.
+Print Assumptions C04_two_series_first_failing_check.
+Print Assumptions C04_accepted_inputs.
+Print Assumptions C04_window_zero.
+Print Assumptions C04_shorter_second_series_index_body.
+Print Assumptions C04_resid_first_failing_check.
+Print Assumptions C04_trend_window_zero.
+Print Assumptions C04_cross_sum_family_any_lengths.
+Print Assumptions C04_ts_vcov_any_lengths.
+Print Assumptions C04_ts_vcorr_any_lengths.
+Print Assumptions C04_ts_vregx_any_lengths.
+Print Assumptions C04_ts_vregx_resid_any_lengths.
+Print Assumptions C04_window_positions.
+Print Assumptions C04_pairs_positional.
+Print Assumptions C04_pairs_are_the_complete_positions.
+Print Assumptions C04_count_tracks_window_any_carrier.
+Print Assumptions C04_below_min_periods_null_any_carrier.
+Print Assumptions C04_count_at_XR.
+Print Assumptions C04_trend_below_min_periods_null_any_carrier.
+Print Assumptions C04_perfect_window_regx.
+Print Assumptions C04_resid_below_min_periods_null_any_carrier.
+Print Assumptions C04_window_covers_prefix.
